@@ -9,6 +9,10 @@ CHECKS = {
    text="TLC exhaustively checks Segments.tla (read buffer, peel loop, send guard; refinement to a FIFO channel and to the length-only abstraction) for all streams of <=3 frames and all chunkings; every transition of that state graph is replayed into the real YowNoiseSegmentsLayer under several length scalings (up to 128 KiB frames, header-internal split points preserved), and recorded executions on random streams are validated by TLC against Segments_Trace.",
    note="Trusts TLC, the edge-dump/replay driver and the stub stack object; frame sizes beyond 200 KiB on the receive side are covered by the length-only abstraction only through sampled traces.",
    technique="TLA+ spec + TLC exhaustive model checking; behaviour replay (transition cover) into the real layer; TLC trace validation of recorded executions"),
+ "C18": dict(level="model_checking", design="4/C18",
+   text="TLC exhaustively checks StackCore.tla (all stack shapes up to depth 3 with groups of up to 2, quick; depth 4 / groups of 3, thorough; every emitter, consumer, direction, detached/normal, stack-level entry, data behaviour) against the order / exactly-once / reach / fan-out invariants, and StackBuild.tla (builder programs, both tuple order conventions, implicit/explicit groups, the 16+64 helper flag combinations). Every transition of both graphs is replayed on real YowStack objects made of synthesised recording layers in four construction variants; logs are compared after every step including each loop step.",
+   note="Trusts TLC and the replay driver; members of a group behind a consuming member and siblings of an emitting member are compared as don't-care (the statement does not decide them); depth 5-6 shapes are not enumerated (the walk is uniform in depth).",
+   technique="TLA+ spec + TLC exhaustive model checking; replay of every spec transition into the real stack (one implementation test per transition)"),
 }
 NA_REASON = "check not built yet in this session (planned: see DESIGN.md section 4)"
 
